@@ -5,6 +5,8 @@
 /// spec-only supertrait: the cost model every connector denotes (added; has no executable content)
 pub trait CostModel {
     spec fn conn_wf(&self) -> bool;
+    /// what a parser can establish before the lexicon is checked: the representation is coherent, but a dimension may be 0
+    spec fn conn_shape(&self) -> bool;
     spec fn spec_num_left(&self) -> int;
     spec fn spec_num_right(&self) -> int;
     spec fn spec_cost(&self, right_id: u16, left_id: u16) -> int;
@@ -16,15 +18,23 @@ pub trait CostModel {
             0 <= self.spec_cost_bound(),
             forall|r: u16, l: u16| (r as int) < self.spec_num_right() && (l as int) < self.spec_num_left() ==>
                 -self.spec_cost_bound() <= #[trigger] self.spec_cost(r, l) <= self.spec_cost_bound();
+
+    proof fn lemma_shape_of_wf(&self)
+        requires self.conn_wf(),
+        ensures self.conn_shape();
+
+    proof fn lemma_wf_of_shape(&self)
+        requires self.conn_shape(), 1 <= self.spec_num_left(), 1 <= self.spec_num_right(),
+        ensures self.conn_wf();
 }
 
 pub trait Connector: CostModel {
     fn num_left(&self) -> (r: usize)
-        requires self.conn_wf(),
+        requires self.conn_wf() || self.conn_shape(),
         ensures r as int == self.spec_num_left();
 
     fn num_right(&self) -> (r: usize)
-        requires self.conn_wf(),
+        requires self.conn_wf() || self.conn_shape(),
         ensures r as int == self.spec_num_right();
 
     fn map_connection_ids(&mut self, mapper: &ConnIdMapper)
